@@ -26,6 +26,7 @@ EXPLANATION = (
     "UTF-8 of bytes 2..2+byte 1 split at '|' (AT4) / ',' (AT5), update flag = byte 0 != 0; AC error text = UTF-8 of bytes 2..2+byte 1 exactly when byte 1 "
     "!= 0, else absent; C strings stop at the first NUL. R7 records are decoded independently: every local a record is built from is assigned in the same loop iteration on every path (reaching definitions with the back edge cut), so an absent optional part never inherits the previous record's value. The transcription of the vendor tables is QA'd on the vendor's example frames first."
     ' Rounds 7-8: R4 also decides the converse of the sentinel clause (a code the vendor defines as a value never decodes to absent, whatever the rest of the record holds); R7 also: no module-level container is modified by a codec, nothing kept on the shared codec objects is filled in place, and outside __init__ a codec stores only constants on itself.'
+    " Rounds 9-10: R5 also covers the AT5 ability records (record k at 26k); R6 also: text is decoded strictly (invalid UTF-8 witnesses are refused; no errors= handler in any codec) and the console-version decoder refuses nothing; R4 also: for optional fields without a vendor sentinel every code is a value when the guard field says 'present'."
 )
 ASSUMPTIONS = ["vendor tables transcribed in sa/spec/tables.py (DESIGN Appendix A) are the oracle", "struct.unpack_from slot layout as computed from the literal format string"]
 FLOORS = {"C05.R1": 60, "C05.R2": 12, "C05.R3": 6, "C05.R4": 5, "C05.R5": 7, "C05.R6": 8, "C05.R7": 6}
